@@ -32,6 +32,8 @@ type Mutant struct {
 	// variant that introduces a construct another property legitimately reports); excluded from
 	// the cross-property benign run.
 	OwnOnly bool
+	// PatchFile: a unified diff (seeded change) to apply instead of the text edits.
+	PatchFile string
 }
 
 // Edit is one exact-text replacement.
@@ -68,6 +70,7 @@ func runMutants(repo, verifDir, prop string) *MutantResult {
 			sel = append(sel, m)
 		}
 	}
+	sel = append(sel, seededMutants(verifDir, prop)...)
 	if len(sel) == 0 {
 		return res
 	}
@@ -114,6 +117,18 @@ func runOneMutant(exe, repo, verifDir, tmp string, idx int, m Mutant) MutantOutc
 	out := MutantOutcome{Name: m.Name, File: m.File, Benign: m.Benign}
 	edits := append([]Edit{{m.File, m.Old, m.New}}, m.More...)
 	contents := map[string]string{}
+	if m.PatchFile != "" {
+		edits = nil
+		patched, err := applyPatchToCopies(repo, m.PatchFile, filepath.Join(tmp, fmt.Sprintf("p%d", idx)))
+		if err != nil {
+			out.Outcome = "not-applicable"
+			out.Detail = "patch does not apply to the current tree: " + firstLine(err.Error())
+			return out
+		}
+		for abs, c := range patched {
+			contents[abs] = c
+		}
+	}
 	for _, e := range edits {
 		abs := filepath.Join(repo, e.File)
 		cur, ok := contents[abs]
@@ -246,3 +261,81 @@ func runCrossBenign(repo, verifDir, filter string) int {
 }
 
 func mutants0Prop(n string) string { return n }
+
+// seededMutants turns the seeded changes kept under <verif>/seeded (independent sub-agents' patches
+// that break a property while compiling and passing the test-suite) into self-test variants of the
+// properties that are expected to report them (meta.json: detected_by.properties).
+func seededMutants(verifDir, prop string) []Mutant {
+	var out []Mutant
+	metas, _ := filepath.Glob(filepath.Join(verifDir, "seeded", "C*-*", "meta.json"))
+	sort.Strings(metas)
+	for _, mf := range metas {
+		b, err := os.ReadFile(mf)
+		if err != nil {
+			continue
+		}
+		var m struct {
+			Property   string `json:"property"`
+			DetectedBy struct {
+				Properties []string `json:"properties"`
+			} `json:"detected_by"`
+		}
+		if json.Unmarshal(b, &m) != nil {
+			continue
+		}
+		for _, pr := range m.DetectedBy.Properties {
+			if pr != prop {
+				continue
+			}
+			dir := filepath.Dir(mf)
+			out = append(out, Mutant{Prop: prop, Name: "seeded-" + filepath.Base(dir), File: "seeded/" + filepath.Base(dir) + "/patch.diff",
+				PatchFile: filepath.Join(dir, "patch.diff"), Expect: []string{prop + "."}})
+		}
+	}
+	return out
+}
+
+// applyPatchToCopies applies a unified diff to copies of the files it touches (never to the
+// repository) and returns absolute repo path -> patched content.
+func applyPatchToCopies(repo, patchFile, scratch string) (map[string]string, error) {
+	diff, err := os.ReadFile(patchFile)
+	if err != nil {
+		return nil, err
+	}
+	var files []string
+	for _, l := range strings.Split(string(diff), "\n") {
+		if strings.HasPrefix(l, "+++ b/") {
+			files = append(files, strings.TrimPrefix(l, "+++ b/"))
+		}
+	}
+	if len(files) == 0 {
+		return nil, fmt.Errorf("no files in patch")
+	}
+	for _, f := range files {
+		dst := filepath.Join(scratch, f)
+		if err := os.MkdirAll(filepath.Dir(dst), 0o755); err != nil {
+			return nil, err
+		}
+		src, err := os.ReadFile(filepath.Join(repo, f))
+		if err != nil {
+			return nil, err
+		}
+		if err := os.WriteFile(dst, src, 0o644); err != nil {
+			return nil, err
+		}
+	}
+	cmd := exec.Command("patch", "-p1", "--no-backup-if-mismatch", "-s", "-i", patchFile)
+	cmd.Dir = scratch
+	if b, err := cmd.CombinedOutput(); err != nil {
+		return nil, fmt.Errorf("%v: %s", err, strings.TrimSpace(string(b)))
+	}
+	out := map[string]string{}
+	for _, f := range files {
+		b, err := os.ReadFile(filepath.Join(scratch, f))
+		if err != nil {
+			return nil, err
+		}
+		out[filepath.Join(repo, f)] = string(b)
+	}
+	return out, nil
+}
